@@ -333,6 +333,8 @@ def make_body(shape, data):
         return (memoryview(x) for x in items), False, items
     if kind == "fw":
         return FileWrapper(io.BytesIO(data), p), True, None
+    if kind == "fwcap":
+        return FileWrapper(CAPS[p[0]][1](data), p[1]), True, None
     if kind == "fwns":
         return FileWrapper(NonSeek(data), p), True, None
     raise AssertionError(kind)
@@ -971,7 +973,199 @@ def big_problem(srci, hi, method, ifr):
                   None if result[2] is None else len(result[2]), sorted(map(repr, allowed)))
 
 
-R2 = {"fndata": fndata_problem, "etagsrc": etagsrc_problem, "ius": ius_problem, "cfg": cfg_problem, "mix": mix_problem, "sf": sf_problem,
+
+# ---- CP: capability combinations of the file object behind a FileWrapper (seed C11-3a): what the wrapped object
+#          says about seeking (seekable() True / False / absent / raising), whether it has seek / tell, and whether
+#          seek raises - as io.RawIOBase / io.BufferedIOBase objects and as duck-typed objects.
+import errno  # noqa: E402
+
+
+class RawNonSeek(io.RawIOBase):
+    """like a pipe / socket body: seekable() is False, but .seek / .tell exist (and raise UnsupportedOperation)"""
+
+    def __init__(self, d):
+        self._b = io.BytesIO(d)
+
+    def readable(self):
+        return True
+
+    def readinto(self, buf):
+        return self._b.readinto(buf)
+
+
+class RawSeek(RawNonSeek):
+    def seekable(self):
+        return True
+
+    def seek(self, pos, whence=0):
+        return self._b.seek(pos, whence)
+
+    def tell(self):
+        return self._b.tell()
+
+
+class BufBaseNonSeek(io.BufferedIOBase):
+    def __init__(self, d):
+        self._b = io.BytesIO(d)
+
+    def readable(self):
+        return True
+
+    def read(self, n=-1):
+        return self._b.read(n)
+
+
+class Duck:
+    """plain object with read(); further attributes are attached per capability form"""
+
+    def __init__(self, d):
+        self._b = io.BytesIO(d)
+
+    def read(self, n=-1):
+        return self._b.read(n)
+
+    def close(self):
+        self._b.close()
+
+
+def _espipe(*a):
+    raise OSError(errno.ESPIPE, "Illegal seek")
+
+
+def _unsupported(*a):
+    raise io.UnsupportedOperation("seek")
+
+
+def _duck(d, seekable=None, seek=None, tell=None):
+    o = Duck(d)
+    if seekable == "raise":
+        def _s():
+            raise ValueError("I/O operation on closed file")
+        o.seekable = _s
+    elif seekable is not None:
+        o.seekable = lambda: seekable
+    if seek == "work":
+        o.seek = o._b.seek
+    elif seek is not None:
+        o.seek = seek
+    if tell == "work":
+        o.tell = o._b.tell
+    elif tell is not None:
+        o.tell = tell
+    return o
+
+
+# (name, factory(data), lenient: an exception is admitted because the object contradicts itself)
+CAPS = [
+    ("raw-nonseek", RawNonSeek, False),
+    ("buffered-reader-nonseek", lambda d: io.BufferedReader(RawNonSeek(d), 4), False),
+    ("bufbase-nonseek", BufBaseNonSeek, False),
+    ("raw-seek", RawSeek, False),
+    ("buffered-reader-seek", lambda d: io.BufferedReader(RawSeek(d), 4), False),
+    ("bytesio", io.BytesIO, False),
+    ("duck-read-only", lambda d: _duck(d), False),
+    ("duck-false-seek-espipe", lambda d: _duck(d, False, _espipe, _espipe), False),
+    ("duck-false-seek-unsupported-tell-works", lambda d: _duck(d, False, _unsupported, "work"), False),
+    ("duck-false-seek-works", lambda d: _duck(d, False, "work", "work"), False),
+    ("duck-false-no-seek-tell", lambda d: _duck(d, False, None, "work"), False),
+    ("duck-seek-tell-no-seekable", lambda d: _duck(d, None, "work", "work"), False),
+    ("duck-true-seek-tell", lambda d: _duck(d, True, "work", "work"), False),
+    ("duck-tell-only", lambda d: _duck(d, None, None, "work"), False),
+    ("duck-seekable-raises", lambda d: _duck(d, "raise", "work", "work"), True),
+    ("duck-true-no-tell", lambda d: _duck(d, True, "work", None), True),
+    ("duck-seek-raises-no-seekable", lambda d: _duck(d, None, _unsupported, "work"), True),
+]
+CAP_BS = [1, 2, 3, 8]
+
+
+class ServerWrapperClaimsNoSeek(ServerWrapper):
+    """server wrapper around a real file that reports seekable() False although seek exists (and raises)"""
+
+    def seekable(self):
+        return False
+
+    seek = staticmethod(_espipe)
+    tell = staticmethod(_espipe)
+
+
+class ServerWrapperSeekNoFlag(ServerWrapper):
+    """seek / tell but no seekable(): _RangeWrapper must not assume it can seek"""
+
+    def seek(self, *a):
+        return self.file.seek(*a)
+
+    def tell(self):
+        return self.file.tell()
+
+
+def cap_problem(ci, bs, n, hi, method, ifr, route=0):
+    """route 0: Response(FileWrapper(obj, bs), direct_passthrough=True).make_conditional; 1: send_file(obj)"""
+    name, factory, lenient = CAPS[ci]
+    data = bytes(range(65, 65 + n))
+    hdr = range_headers(n, "quick")[hi]
+    try:
+        if route == 0:
+            allowed = allowed_range(method, hdr, n, ifr)
+            result = run_range_case((name, "fwcap", (ci, bs)), data, hdr, method, ifr)
+        else:
+            # send_file only knows the length of a BytesIO: for any other object the Range is ignored or served
+            allowed = set(allowed_range(method, hdr, n, ifr)) | {"none"}
+            headers = {} if hdr is None else {"Range": hdr}
+            if IF_RANGES[ifr][1] is not None:
+                headers["If-Range"] = IF_RANGES[ifr][1]
+            env = create_environ(method=method, headers=headers)
+            kw = dict(mimetype="application/octet-stream", etag="a", last_modified=T) if IF_RANGES[ifr][3] else \
+                dict(mimetype="application/octet-stream", etag=False)
+            try:
+                r = send_file(factory(data), env, **kw)
+            except RequestedRangeNotSatisfiable:
+                result = ("416", None, None)
+            else:
+                app_iter, status, hl = r.get_wsgi_response(env)
+                out = b"".join(app_iter)
+                if hasattr(app_iter, "close"):
+                    app_iter.close()
+                r.close()
+                result = (int(status.split()[0]), dict(hl), out)
+    except Exception as e:  # noqa: BLE001
+        if lenient:
+            return None, (name, "exception admitted", type(e).__name__)
+        return "exception:" + type(e).__name__, (name, bs, hdr, method, repr(e))
+    what = judge_range(result, allowed, data, method)
+    return what, (name, bs, hdr, result, sorted(map(repr, allowed)))
+
+
+def capsrv_problem(wi, name, hdr, method, ifr):
+    """send_file(path) through a server-supplied wsgi.file_wrapper of each capability form"""
+    wrapper = [ServerWrapper, SeekableServerWrapper, ServerWrapperClaimsNoSeek, ServerWrapperSeekNoFlag][wi]
+    data = FILES[name]
+    allowed = allowed_range(method, hdr, len(data), ifr)
+    with (scratch() if _SCRATCH["dir"] is None else contextlib.nullcontext()):
+        headers = {} if hdr is None else {"Range": hdr}
+        if IF_RANGES[ifr][1] is not None:
+            headers["If-Range"] = IF_RANGES[ifr][1]
+        env = create_environ(method=method, headers=headers, environ_overrides={"wsgi.file_wrapper": wrapper})
+        try:
+            try:
+                r = send_file(os.path.join(_SCRATCH["dir"], name), env, mimetype="application/octet-stream",
+                              etag="a", last_modified=T)
+            except RequestedRangeNotSatisfiable:
+                result = ("416", None, None)
+            else:
+                app_iter, status, hl = r.get_wsgi_response(env)
+                out = b"".join(app_iter)
+                if hasattr(app_iter, "close"):
+                    app_iter.close()
+                r.close()
+                result = (int(status.split()[0]), dict(hl), out)
+        except Exception as e:  # noqa: BLE001
+            return "exception:" + type(e).__name__, (wrapper.__name__, hdr, method, repr(e))
+    what = judge_range(result, allowed, data, method)
+    return what, (wrapper.__name__, name, hdr, result[0], (result[1] or {}).get("Content-Range"),
+                  None if result[2] is None else len(result[2]))
+
+
+R2 = {"cap": cap_problem, "capsrv": capsrv_problem, "fndata": fndata_problem, "etagsrc": etagsrc_problem, "ius": ius_problem, "cfg": cfg_problem, "mix": mix_problem, "sf": sf_problem,
       "sfval": sf_validator_problem, "big": big_problem}
 
 
@@ -1031,6 +1225,9 @@ def units(tier):
             for name in ("f6", "big", "f0"):
                 us.append(("r2sf", cfgi, src, name))
     us.append(("r2sfval",))
+    for ci in range(len(CAPS)):
+        us.append(("r2cap", ci))
+    us.append(("r2capsrv",))
     for srci in range(len(BIG_SRC)):
         us.append(("r2big", srci))
     return us
@@ -1126,6 +1323,35 @@ def run_r2_unit(unit, R, tier):
                         what, d = r2_eval(R, "sf", (cfgi, src, name, hdr, method, ifr))
                         if not what:
                             R.use("sf-code:%s:%s" % (SF_CFGS[cfgi][3], d[4]))
+    elif kind == "r2cap":
+        ci = unit[1]
+        R.use("cap:" + CAPS[ci][0])
+        for bs in (CAP_BS if not T_ else CAP_BS + [4, 5, 64]):
+            for n in range(0, 7 if not T_ else 11):
+                for hi in range(len(range_headers(n, "quick"))):
+                    for method in METHODS:
+                        for ifr in ((0,) if not T_ else range(len(IF_RANGES))):
+                            what, d = r2_eval(R, "cap", (ci, bs, n, hi, method, ifr))
+                            if not what and len(d) > 3:
+                                R.use("cap-code:%s" % (d[3][0],))
+                            elif not what:
+                                R.use("cap-exception-admitted")
+        for n in (0, 3, 6):
+            for hi in range(len(range_headers(n, "quick"))):
+                for method in METHODS:
+                    for ifr in (0, 2):
+                        r2_eval(R, "cap", (ci, 0, n, hi, method, ifr, 1))
+    elif kind == "r2capsrv":
+        with scratch():
+            for wi in range(4):
+                for name in ("f6", "big"):
+                    hdrs = BIG_RANGES if name == "big" else range_headers(6, "quick")
+                    for hdr in hdrs:
+                        for method in METHODS:
+                            for ifr in (0, 2, 4):
+                                what, d = r2_eval(R, "capsrv", (wi, name, hdr, method, ifr))
+                                if not what:
+                                    R.use("capsrv:%d:%s" % (wi, d[3]))
     elif kind == "r2sfval":
         with scratch():
             for cfgi in range(len(SF_CFGS)):
@@ -1295,6 +1521,8 @@ def finalize(R, tier):
     need |= {"shape:list-ba", "shape:list-mv", "shape:gen-mv"}
     need |= {"r2:" + k for k in R2} | {"esrc:" + e for e in ESRC} | {"cfg:" + c[0] for c in CFGS[1:]}
     need |= {"sfcfg:" + c[0] for c in SF_CFGS} | {"bigsrc:" + b for b in BIG_SRC}
+    need |= {"cap:" + c[0] for c in CAPS} | {"cap-code:206", "cap-code:416", "cap-code:200"}
+    need |= {"capsrv:%d:206" % i for i in range(4)}
     need |= {"cfg-code:base:206", "cfg-code:base:416", "cfg-code:ignored:200", "cfg-code:may:200",
              "mix-code:206", "mix-code:200", "mix-code:416", "sf-code:base:206", "sf-code:base:416",
              "sf-code:ignored:200", "sfval-code:304", "sfval-code:200", "big-code:206", "big-code:416", "big-code:200"}
